@@ -45,9 +45,10 @@ type vWorld struct {
 	faultAt       int
 	site          string // where the fault fired
 	sites         []string
-	countStatus   bool           // GetDeployStatus answers with recorded + in-progress counts (C13)
-	onStep        func()         // observer called at every intercepted call (C13)
-	planned       map[string]int // node -> instances the deployment asked the resource manager for
+	countStatus   bool            // GetDeployStatus answers with recorded + in-progress counts (C13)
+	onStep        func()          // observer called at every intercepted call (C13)
+	planned       map[string]int  // node -> instances the deployment asked the resource manager for
+	delRefused    map[string]bool // nodes whose DeleteProcessing was the injected failure
 }
 
 // fault reports whether the current fallible call is the one that fails.
@@ -103,61 +104,90 @@ type vRmgr struct {
 	w *vWorld
 }
 
+// addUsage changes a node's recorded usage the way the plugins do it: the node's
+// record is READ, changed and WRITTEN BACK in two separate store operations, with
+// nothing but the cluster's pod lock excluding another writer in between (a
+// scheduling point under gosym's bounded preemption).
+func (w *vWorld) addUsage(node string, delta int) {
+	vMu.Lock()
+	cur := w.usage[node]
+	vMu.Unlock()
+	vYield()
+	vMu.Lock()
+	w.usage[node] = cur + delta
+	vMu.Unlock()
+}
+
+// vEnter is vGuard for methods that change usage through addUsage (the mutex is
+// not held across the read-modify-write window).
+func vEnter(w *vWorld, site string) bool {
+	vYield()
+	vMu.Lock()
+	defer vMu.Unlock()
+	return w.fault(site)
+}
+
 func (m *vRmgr) Realloc(_ context.Context, node string, origin, opts resourcetypes.Resources) (resourcetypes.Resources, resourcetypes.Resources, resourcetypes.Resources, error) {
-	defer vGuard()()
-	if m.w.fault("rmgr.Realloc") {
+	if vEnter(m.w, "rmgr.Realloc") {
 		return nil, nil, nil, vErrInjected
 	}
 	delta := vAmount(opts)
-	m.w.usage[node] += delta
+	m.w.addUsage(node, delta)
 	return vRes(vAmount(origin) + delta), vRes(delta), vRes(vAmount(origin) + delta), nil
 }
 
 func (m *vRmgr) RollbackRealloc(_ context.Context, node string, delta resourcetypes.Resources) error {
-	defer vGuard()()
-	if m.w.fault("rmgr.RollbackRealloc") {
+	if vEnter(m.w, "rmgr.RollbackRealloc") {
 		return vErrInjected
 	}
-	m.w.usage[node] -= vAmount(delta)
+	m.w.addUsage(node, -vAmount(delta))
 	return nil
 }
 
 func (m *vRmgr) SetNodeResourceUsage(_ context.Context, node string, _ resourcetypes.Resources, _ resourcetypes.Resources, ws []resourcetypes.Resources, delta bool, incr bool) (resourcetypes.Resources, resourcetypes.Resources, error) {
-	defer vGuard()()
-	if m.w.fault("rmgr.SetNodeResourceUsage") {
+	if vEnter(m.w, "rmgr.SetNodeResourceUsage") {
 		return nil, nil, vErrInjected
 	}
+	vMu.Lock()
 	before := m.w.usage[node]
+	vMu.Unlock()
 	sum := 0
 	for _, r := range ws {
 		sum += vAmount(r)
 	}
 	switch {
 	case !delta:
-		m.w.usage[node] = sum
+		m.w.addUsage(node, sum-before)
 	case incr:
-		m.w.usage[node] += sum
+		m.w.addUsage(node, sum)
 	default:
-		m.w.usage[node] -= sum
+		m.w.addUsage(node, -sum)
 	}
+	vMu.Lock()
+	defer vMu.Unlock()
 	return vRes(before), vRes(m.w.usage[node]), nil
 }
 
 func (m *vRmgr) Alloc(_ context.Context, node string, count int, opts resourcetypes.Resources) ([]resourcetypes.Resources, []resourcetypes.Resources, error) {
-	defer vGuard()()
-	if m.w.fault("rmgr.Alloc") {
+	if vEnter(m.w, "rmgr.Alloc") {
 		return nil, nil, vErrInjected
 	}
+	vMu.Lock()
 	m.w.allocsOK++
 	if m.w.planned != nil {
 		m.w.planned[node] += count
 	}
+	vMu.Unlock()
 	var rs, es []resourcetypes.Resources
 	for i := 0; i < count; i++ {
 		rs = append(rs, vRes(vAmount(opts)))
 		es = append(es, vRes(vAmount(opts)))
-		m.w.usage[node] += vAmount(opts)
 	}
+	total := 0
+	for i := 0; i < count; i++ {
+		total += vAmount(opts)
+	}
+	m.w.addUsage(node, total)
 	return rs, es, nil
 }
 
@@ -168,13 +198,14 @@ func (m *vRmgr) Remap(context.Context, string, []*types.Workload) (map[string]re
 }
 
 func (m *vRmgr) RollbackAlloc(_ context.Context, node string, ws []resourcetypes.Resources) error {
-	defer vGuard()()
-	if m.w.fault("rmgr.RollbackAlloc") {
+	if vEnter(m.w, "rmgr.RollbackAlloc") {
 		return vErrInjected
 	}
+	sum := 0
 	for _, r := range ws {
-		m.w.usage[node] -= vAmount(r)
+		sum += vAmount(r)
 	}
+	m.w.addUsage(node, -sum)
 	return nil
 }
 
